@@ -123,7 +123,9 @@ def scn(params):
 
         def offer(tt, side):
             fr = tunnelscn.pick_frame(t, rng, side, (params["idx"] << 20) | ident[0], 0,
-                                      sizes=[32, 40, 60, 100, 200, 576, 1000, 1134])
+                                      sizes=[32, 40, 60, 100, 200, 576, 1000, 1134] + ([cfg["srv_m"] - 60, cfg["srv_m"], cfg["srv_m"] + 4] if cfg.get("srv_m") else []))
+            if cfg.get("srv_m") and len(fr) > 1200:
+                fr = proto.make_frame(".".join(str(x) for x in fr[16:20]), ".".join(str(x) for x in fr[20:24]), (params["idx"] << 20) | ident[0], len(fr), "random", rng)
             if mode != "clean" and not (cfg["raw"] and t.neg and t.neg[0]["conn"] == 0):
                 # Packets that cannot fit 16 fragments are outside the property; a stream of them only occupies the
                 # tunnel for seconds each (they are sent and never completed), so the bounded-recovery clause would
@@ -173,6 +175,31 @@ def scn(params):
             st["t_clean"] = t.t0
             st["last_offer"] = tt
             return tt + 90 * US
+        if params.get("idle_loss"):
+            # a quiet tunnel (nothing but the programs' own keep-alives for two minutes) on a path that loses exactly one datagram
+            # in that time - a period of loss far shorter than any timeout; then traffic resumes on the perfect path
+            cip = t.clients[0].addrs[0]
+            t_drop = k.now + rng.choice([25, 30, 35, 45]) * US
+            dropped = []
+            way = rng.choice(["up", "up", "down"])
+
+            def policy1(src, dst, data):
+                if dropped or k.now < t_drop:
+                    return None
+                if (way == "up" and src[0] == cip) or (way == "down" and dst[0] == cip):
+                    dropped.append(k.now)
+                    st["idle_loss_dropped_at"] = k.now
+                    return []
+                return None
+            k.link_policy = policy1
+            tt = k.now + rng.choice([115, 130, 150]) * US
+            st["t_clean"] = tt - 10 * US
+            for _i in range(10):
+                offer(tt, "srv")
+                offer(tt + rng.randint(0, 300000), "cli")
+                tt += rng.choice([500000, 1000000, 1500000])
+            st["last_offer"] = tt
+            return tt + 60 * US
         # recovery: fault phase then clean
         F = rng.choice([5, 10, 20, 30, 40]) * US
         tf = k.now + 2 * US
@@ -397,6 +424,13 @@ def run(ctx):
             cfg.update(slow_start=rng.choice([1100000, 1120000, 1150000]), qtype="NULL", raw=False, interval=None, pred=False,
                        m=None, downenc=None, lazy=1, M=rng.choice([200, 255]))
         plist.append({"idx": i, "seed": ctx.seed * 100000 + i, "cfg": cfg, "mode": mode, "by_vanish": (i // 12) % 2 == 0})
+        if mode == "recover" and i % 12 == 7:
+            plist[-1]["idle_loss"] = True
+            cfg.update(fault=None, slow_start=None, pred=False)
+            cfg["raw"] = (i // 12) % 2 == 0          # (raw mode has the sparsest keep-alives)
+        if cfg["raw"] and i % 4 == 1:
+            # a server run with a large tunnel MTU (LAN, loopback, virtual networks), packets near that size that do not compress
+            cfg["srv_m"] = rng.choice([1400, 1500, 1500])
     if ctx.replay:
         plist = [ctx.replay["witness"]["params"]]
     res.min_evaluations = max(1, len(plist) // 2)
